@@ -81,7 +81,7 @@ def run(ctx):
         "exhaustive": True,
     }
     return ctx.finish("model_checking", cov, [
-        "the table is exhaustive over the fixture's command universe (8 typed lines x 5 rewrite targets), not over all strings",
+        "the table is exhaustive over the fixture's command universe (10 typed lines x 5 rewrite targets), not over all strings",
         "client packets enter as decoded packets through clientPlaySessionHandler.HandlePacket",
     ])
 
